@@ -67,9 +67,17 @@ def directU (d : Drv) (tn : String) (op : UOp) : Option (Cols × List Row × Boo
 
 end Drv
 
-/-- Give fresh allocation ids to the markers a pure model function created (`oid = 0`);
-structurally identical new markers inside one result are one object. -/
-partial def renumber (r : Rel) : StateM (Drv × List (String × Nat)) Rel := do
+def needsId (oid : Nat) : Bool := oid == 0 || oid ≥ tempBase
+
+structure RenumSt where
+  d : Drv
+  memo : List (String × Nat) := []
+  remap : List (Nat × Nat) := []
+
+/-- Give fresh allocation ids to the markers a pure model function created (`oid = 0`, or a
+temporary id handed out by the processor); structurally identical new markers inside one result
+are one object. -/
+partial def renumber (r : Rel) : StateM RenumSt Rel := do
   match r with
   | .leaf .. => return r
   | .unary op t c => return .unary op (← renumber t) c
@@ -79,41 +87,81 @@ partial def renumber (r : Rel) : StateM (Drv × List (String × Nat)) Rel := do
     return .binary op l' r' c
   | .mat oid name t =>
     let t' ← renumber t
-    if oid != 0 then return .mat oid name t'
-    let (d, memo) ← get
-    let key := (Rel.mat 0 name t').show (fun _ => false)
-    match memo.find? (·.1 == key) with
+    if !needsId oid then return .mat oid name t'
+    let s ← get
+    let key := s!"{oid}:" ++ (Rel.mat 0 name t').show (fun _ => false)
+    match s.memo.find? (·.1 == key) with
     | some (_, o) => return .mat o name t'
     | none =>
-      set ({ d with nextSerial := d.nextSerial + 1 }, (key, d.nextSerial) :: memo)
-      return .mat d.nextSerial name t'
+      let o := s.d.nextSerial
+      set { s with d := { s.d with nextSerial := o + 1 }, memo := (key, o) :: s.memo, remap := (oid, o) :: s.remap }
+      return .mat o name t'
   | .transfer oid dest t =>
     let t' ← renumber t
-    if oid != 0 then return .transfer oid dest t'
-    let (d, memo) ← get
-    let key := (Rel.transfer 0 dest t').show (fun _ => false)
-    match memo.find? (·.1 == key) with
+    if !needsId oid then return .transfer oid dest t'
+    let s ← get
+    let key := s!"{oid}:" ++ (Rel.transfer 0 dest t').show (fun _ => false)
+    match s.memo.find? (·.1 == key) with
     | some (_, o) => return .transfer o dest t'
     | none =>
-      set ({ d with nextSerial := d.nextSerial + 1 }, (key, d.nextSerial) :: memo)
-      return .transfer d.nextSerial dest t'
-  | .select oid s p dd a b k c t =>
+      let o := s.d.nextSerial
+      set { s with d := { s.d with nextSerial := o + 1 }, memo := (key, o) :: s.memo, remap := (oid, o) :: s.remap }
+      return .transfer o dest t'
+  | .select oid sr p dd a b k c t =>
     let k' ← renumber k
     let t' ← renumber t
-    if oid != 0 then return .select oid s p dd a b k' c t'
-    let (d, memo) ← get
-    let key := (Rel.select 0 s p dd a b k' c t').show (fun _ => false)
-    match memo.find? (·.1 == key) with
-    | some (_, o) => return .select o s p dd a b k' c t'
+    if !needsId oid then return .select oid sr p dd a b k' c t'
+    let s ← get
+    let key := s!"{oid}:" ++ (Rel.select 0 sr p dd a b k' c t').show (fun _ => false)
+    match s.memo.find? (·.1 == key) with
+    | some (_, o) => return .select o sr p dd a b k' c t'
     | none =>
-      set ({ d with nextSel := d.nextSel + 1 }, (key, d.nextSel) :: memo)
-      return .select d.nextSel s p dd a b k' c t'
+      let o := s.d.nextSel
+      set { s with d := { s.d with nextSel := o + 1 }, memo := (key, o) :: s.memo, remap := (oid, o) :: s.remap }
+      return .select o sr p dd a b k' c t'
+
+def remapKey (remap : List (Nat × Nat)) (k : Nat) : Nat :=
+  if k ≥ tempBase then ((remap.find? (·.1 == k)).map (·.2)).getD k else k
 
 def Drv.adopt (d : Drv) (n : String) (r : Rel) : Drv × Rel :=
-  let (r', (d', _)) := (renumber r).run (d, [])
+  let (r', s) := (renumber r).run { d := d }
+  let d' := s.d
+  let d' := { d' with
+    st := { d'.st with payloads := d'.st.payloads.map (fun (p : Nat × Iterable) => (remapKey s.remap p.1, p.2)) },
+    sqlSt := { d'.sqlSt with payloads := d'.sqlSt.payloads.map (fun (p : Nat × SqlPayload) => (remapKey s.remap p.1, p.2)) } }
   (d'.setRel n r', r')
 
 def errLine (e : Err) : String := "err " ++ e.name
+
+/-- No positional slice sits above a transfer out of a SQL engine (whose row order is the
+database's business). -/
+def iterDet : Rel → Bool
+  | .leaf .. => true
+  | .unary op t _ =>
+    iterDet t && (match op with
+      | .slice _ _ => !(hasSqlTransferAux t)
+      | _ => true)
+  | .binary _ l r _ => iterDet l && iterDet r
+  | .mat _ _ t => iterDet t
+  | .transfer _ _ t => iterDet t
+  | .select _ _ _ _ _ _ _ _ t => iterDet t
+where
+  hasSqlTransferAux : Rel → Bool
+    | .leaf .. => false
+    | .unary _ t _ => hasSqlTransferAux t
+    | .binary _ l r _ => hasSqlTransferAux l || hasSqlTransferAux r
+    | .mat _ _ t => hasSqlTransferAux t
+    | .transfer _ _ t => t.engine.kind == .sql || hasSqlTransferAux t
+    | .select _ _ _ _ _ _ _ _ t => hasSqlTransferAux t
+
+/-- The tree contains a transfer out of a SQL engine (row order then depends on the database). -/
+def hasSqlTransfer : Rel → Bool
+  | .leaf .. => false
+  | .unary _ t _ => hasSqlTransfer t
+  | .binary _ l r _ => hasSqlTransfer l || hasSqlTransfer r
+  | .mat _ _ t => hasSqlTransfer t
+  | .transfer _ _ t => t.engine.kind == .sql || hasSqlTransfer t
+  | .select _ _ _ _ _ _ _ _ t => hasSqlTransfer t
 
 /-- Report a freshly built relation. -/
 def Drv.report (d : Drv) (n : String) (how : String) (res : Except Err Rel) : Drv × String :=
@@ -259,7 +307,7 @@ def step (d : Drv) (cmd : List Sexp) : Drv × String :=
             let univ := d.env.tags
             let again := if showRows univ rows1 == showRows univ rows2 then "same" else "diff"
             ({ d with st := { s1 with log := [] } },
-             s!"ok rows={showRows univ rows1} again={again} pulls_exec={showLog d execLog} pulls_iter1={showLog d log1} pulls_iter2={showLog d log2}")
+             s!"ok rows={showRows univ rows1} again={again} pulls_exec={showLog d execLog} pulls_iter1={showLog d log1} pulls_iter2={showLog d log2} order={if hasSqlTransfer r then "any" else "exact"} det={showBool (iterDet r)}")
   -- (sem rN): reference semantics (model only; the harness uses it as the oracle)
   | [atom "sem", atom n] =>
     match d.rel? n with
@@ -408,12 +456,13 @@ def step (d : Drv) (cmd : List Sexp) : Drv × String :=
     | some t =>
       match processTop d.sigma d.st d.sqlSt t with
       | .error e => (d, errLine e)
-      | .ok (res, st', sq', hooks) =>
-        let d := { d with st := st', sqlSt := sq' }
+      | .ok (res, ps) =>
+        let d := { d with st := ps.st, sqlSt := ps.sq }
         let d := d.setDirect n (d.direct? tn)
         let (d, line) := d.report n (if res.isSame then "same" else "new") (.ok (res.get t))
         -- input tree after processing (payload marks may have changed)
-        (d, line ++ " || input=" ++ (t.show d.hasPay) ++ " || hooks=" ++ " ".intercalate hooks)
+        (d, line ++ " || input=" ++ (t.show d.hasPay) ++ " || hooks=" ++ " ".intercalate ps.hooks
+            ++ s!" det={showBool ps.det}")
   -- (sqlexec rN): conform, compile, evaluate with the SQL semantics
   | [atom "sqlexec", atom n] =>
     match d.rel? n with
